@@ -97,7 +97,7 @@ def concatenate(fields, target={}, resources=None):
                     new_resources.append(resource)
                 else:
                     num_concatenated += 1
-        if not suffix:
+        if not suffix and num_concatenated > 0:
             new_resources.append(target)
 
         package.pkg.descriptor['resources'] = new_resources
